@@ -12,21 +12,21 @@ open Rosmar Rosmar.Sql
 /-- `_set` on an existing row: the UPDATE, fed with what the preceding SELECT read (`xattrs` cleared when the row had no body,
 `exp` replaced by the stored one under `PreserveExpiry`, `revSeqNo + 1`). -/
 theorem tie_set_update (cid : Nat) (k val : String) (exp : Nat) (preserve isJSON : Bool) (newCas : Nat) (r : Row) :
-    Collection__set_UPDATE_0.exec
+    upd_cas_exp_isJSON_revSeqNo_tombstone0_value_xattrs__by_collection_key.exec
         (env [("c.id", .int cid), ("key", .text k), ("val", .text val),
               ("xattrs", encX (if r.value.isSome then r.xattrs else [])), ("newCas", .int newCas),
               ("exp", .int (if preserve then r.exp else exp)), ("isJSON", ofBool isJSON), ("revSeqNo", .int (r.rev + 1))])
         (some (enc cid k r))
       = { row := some (enc cid k (setCore (some r) exp preserve val isJSON newCas).1), affected := 1 } := by
-  cases isJSON <;> simp [Collection__set_UPDATE_0, Update.exec, setCore, applySets, SRow.set, SRow.get, E.eval, env, enc, encV, ofBool, SV.truthy, SV.same]
+  cases isJSON <;> simp [upd_cas_exp_isJSON_revSeqNo_tombstone0_value_xattrs__by_collection_key, Update.exec, setCore, applySets, SRow.set, SRow.get, E.eval, env, enc, encV, ofBool, SV.truthy, SV.same]
 
 /-- `_set` on a missing key: the plain INSERT. -/
 theorem tie_set_insert (cid : Nat) (k val : String) (exp : Nat) (preserve isJSON : Bool) (newCas : Nat) :
-    Collection__set_INSERT_0.exec
+    ins_cas_collection_exp_isJSON_key_revSeqNo_value_xattrs.exec
         (env [("c.id", .int cid), ("key", .text k), ("val", .text val), ("xattrs", .null), ("newCas", .int newCas),
               ("exp", .int exp), ("isJSON", ofBool isJSON), ("revSeqNo", .int 1)])
         none
       = { row := some (enc cid k (setCore none exp preserve val isJSON newCas).1), affected := 1 } := by
-  cases isJSON <;> simp [Collection__set_INSERT_0, Upsert.exec, setCore, insertRow, SRow.set, E.eval, env, enc, encV, encX, ofBool, defaultRow]
+  cases isJSON <;> simp [ins_cas_collection_exp_isJSON_key_revSeqNo_value_xattrs, Upsert.exec, setCore, insertRow, SRow.set, E.eval, env, enc, encV, encX, ofBool, defaultRow]
 
 end Rosmar.Gen.Sql
